@@ -1,0 +1,7 @@
+//go:build !verif
+
+package iterator
+
+import "reflect"
+
+func verifGate(point string, t reflect.Type) {}
